@@ -1167,7 +1167,7 @@ class Interp:
                     del st.heap[k]
             for k in [k for k in st.memo if _mentions(k[1], target.attr)]:
                 del st.memo[k]
-            self._drop_facts(st, {target.attr})
+            self._drop_facts(st, {target.attr}, fr)
             if not quiet:
                 st.trace.append(Store(cls, target.attr, base, v, stmt, fr.func, fr.stack, aug=aug, prev=prev))
         elif isinstance(target, ast.Subscript):
@@ -1202,7 +1202,7 @@ class Interp:
                 st.heap.pop((base.name, recv_expr.attr), None)
             for k in [k for k in st.memo if _mentions(k[1], recv_expr.attr)]:
                 del st.memo[k]
-            self._drop_facts(st, {recv_expr.attr})
+            self._drop_facts(st, {recv_expr.attr}, fr)
             return True
         if isinstance(recv_expr, ast.Name):
             cur = st.env.get(recv_expr.id)
@@ -1309,6 +1309,21 @@ class Interp:
                     i = int(idx.const_value())
                     if -len(base.items) <= i < len(base.items):
                         return base.items[i]
+            if isinstance(base, CollV) and not isinstance(e.slice, ast.Slice) and base.kind != "set":
+                idx = self.eval(e.slice, st, fr)
+                if isinstance(idx, Poly) and idx.is_const():
+                    # one element of a collection known by its element facts: the facts hold for it (facts that became
+                    # stale since the collection was built were dropped from the value by the writes themselves)
+                    et = base.typ[1] if base.typ and base.typ[0] in ("list", "set") else None
+                    k = (base.base, int(idx.const_value()), id(e))
+                    var = self._fresh_elem(f"{base.base}[{int(idx.const_value())}]", et)
+                    if isinstance(var, Obj):
+                        self._quiet += 1
+                        try:
+                            self.assume_elem(base, var, st, fr)
+                        finally:
+                            self._quiet -= 1
+                        return var
             if isinstance(e.slice, ast.Slice):
                 sl = e.slice
                 if isinstance(base, ListV) and sl.lower is None and sl.upper is None and sl.step is not None:
@@ -1363,6 +1378,21 @@ class Interp:
                 for c in g.ifs:
                     preds.append((g.target.id, c))
                 return CollV(key, preds, typ or fr.ft.type_of(g.iter))
+        elif e.generators and isinstance(e.elt, ast.Name) and isinstance(e.generators[-1].target, ast.Name) \
+                and e.elt.id == e.generators[-1].target.id and not isinstance(e, ast.GeneratorExp):
+            # flattening comprehension `[x for outer in A for x in outer.B if p(x)]`: the elements are known only through
+            # the innermost conditions that mention nothing bound by an outer generator
+            g = e.generators[-1]
+            outer = {n.id for g0 in e.generators[:-1] for n in ast.walk(g0.target) if isinstance(n, ast.Name)}
+            preds = []
+            for c in g.ifs:
+                for conj in (c.values if isinstance(c, ast.BoolOp) and isinstance(c.op, ast.And) else [c]):
+                    if not any(isinstance(n, ast.Name) and n.id in outer for n in ast.walk(conj)):
+                        preds.append((g.target.id, conj))
+            base = " / ".join(ast.unparse(g0.iter) for g0 in e.generators)
+            typ = fr.ft.type_of(e)
+            if typ and typ[0] in ("list", "set") and typ[1]:
+                return CollV(base, preds, typ, "set" if isinstance(e, ast.SetComp) else "list")
         return Unk("comp~%d" % next(self._fresh), fr.ft.type_of(e))
 
     def binop(self, op, a, b, node):
@@ -1595,7 +1625,7 @@ class Interp:
                     del st.heap[hk]
                 for mk in [mk for mk in st.memo if any(a in mk[1] for a in attrs)]:
                     del st.memo[mk]
-                self._drop_facts(st, attrs)
+                self._drop_facts(st, attrs, fr)
         ret = self._call_result(e, f, fname, callees, fr)
         if cev is not None:
             cev.ret = ret
@@ -1748,10 +1778,24 @@ class Interp:
                                 attrs.add(ef.attr)
         return frozenset(attrs)
 
-    def _drop_facts(self, st, attrs):
+    def _drop_facts(self, st, attrs, fr=None):
         if st.facts and attrs:
             for k in [k for k, (t, deps) in st.facts.items() if deps & attrs]:
                 del st.facts[k]
+        if fr is not None and attrs:
+            # element facts of filtered collections held in locals: a conjunct that reads a written attribute is no
+            # longer known to hold for every element
+            for n, v in list(st.env.items()):
+                if isinstance(v, CollV) and v.preds:
+                    preds, changed = [], False
+                    for pn, body in v.preds:
+                        for c in (body.values if isinstance(body, ast.BoolOp) and isinstance(body.op, ast.And) else [body]):
+                            if self.pred_reads(c, fr) & attrs:
+                                changed = True
+                            else:
+                                preds.append((pn, c))
+                    if changed:
+                        st.env[n] = CollV(v.base, preds, v.typ, v.kind)
 
     def _enum_val(self, v):
         return {self.repo.enums[v.cls][m] for m in v.members}
